@@ -28,7 +28,7 @@ class World:
         self.reg = enc.Registry()
         self.engines = {}
         for i in range(n_iter):
-            e = iteration.Engine(name=f"it{i}", functions={"vid": lambda x: x})
+            e = iteration.Engine(name=f"it{i}", functions={"vid": lambda x: x, "vid_it": lambda x: x})
             self.engines[("it", i)] = self.reg.add_engine(e, "it", i)
         self.leaf_objs = {}
 
